@@ -1,3 +1,305 @@
-/-! Model for property C04 (core Lean only; no Mathlib). -/
+/-! Model for property C04 (core Lean only): a LEG-LABEL CALCULUS for the index arithmetic of
+`pytreenet/contractions/{contraction_util,state_state_contraction,state_operator_contraction}.py`.
+
+A tensor is the list of the labels of its legs (in axis order) together with the list of label pairs
+that have been bound (summed over) while it was built.  `tensordot a b ia ib` does what NumPy does to
+the axes: it rejects index lists of unequal length, repeated or out-of-range indices, binds the
+paired legs — whether or not the pairing is the intended one — and returns `a`'s remaining legs
+followed by `b`'s remaining legs.  Dimensions are not modelled (the harness runs the real helpers on
+pairwise distinct prime dimensions, so that a wrong pairing cannot even be executed there).
+
+Ported literally (Python name ↔ Lean name):
+
+ contraction_util
+  determine_index_with_ignored_leg                   ↔ determineIndexWithIgnoredLeg
+  get_equivalent_legs                                ↔ getEquivalentLegs
+  contract_neighbour_block_to_ket                    ↔ contractNeighbourBlockToKet
+  contract_neighbour_block_to_ket_ignore_one_leg     ↔ contractNeighbourBlockToKetIgnoreOneLeg
+  contract_all_but_one_neighbour_block_to_ket        ↔ contractAllButOneNeighbourBlockToKet
+  contract_all_neighbour_blocks_to_ket               ↔ contractAllNeighbourBlocksToKet
+  …_to_hamiltonian (4 functions)                     ↔ …ToHamiltonian
+ state_state_contraction
+  contract_leafs                                     ↔ contractLeafs
+  contract_bra_to_ket_and_blocks                     ↔ contractBraToKetAndBlocks
+  contract_bra_to_ket_and_blocks_ignore_one_leg      ↔ contractBraToKetAndBlocksIgnoreOneLeg
+  contract_subtrees_using_dictionary                 ↔ contractSubtreesUsingDictionary
+  contract_any_nodes                                 ↔ contractAnyNodes
+  contract_node_with_environment_nodes               ↔ contractNodeWithEnvironmentNodes
+ state_operator_contraction
+  contract_leaf                                      ↔ opContractLeaf
+  contract_operator_tensor_ignoring_one_leg          ↔ contractOperatorTensorIgnoringOneLeg
+  contract_bra_tensor_ignore_one_leg                 ↔ contractBraTensorIgnoreOneLeg
+  contract_subtrees_using_dictionary                 ↔ opContractSubtreesUsingDictionary
+  contract_any_node_environment_but_one              ↔ opContractAnyNodeEnvironmentButOne
+  contract_node_with_environment                     ↔ opContractNodeWithEnvironment
+-/
 namespace Ptn.C04
+
+/-- Leg labels.  `ketNb n`: the leg of the ket tensor toward neighbour `n`; `blkKet n` / `blkOp n` /
+`blkBra n`: the legs of the cached block of the subtree behind neighbour `n` that belong to the ket /
+operator / bra layer; `opOut`, `opIn`: output (first open) and input (second open) leg of an operator. -/
+inductive Leg where
+  | ketNb (n : Nat) | ketPhys
+  | braNb (n : Nat) | braPhys
+  | opNb (n : Nat) | opOut | opIn
+  | blkKet (n : Nat) | blkOp (n : Nat) | blkBra (n : Nat)
+  deriving DecidableEq, Repr
+
+structure T where
+  legs : List Leg
+  binds : List (Leg × Leg)
+  deriving DecidableEq, Repr
+
+def T.fresh (legs : List Leg) : T := ⟨legs, []⟩
+
+/-- the legs at positions (counted from `k`) not listed in `idx`, in order: NumPy's `notin` -/
+def remaining (idx : List Nat) : Nat → List Leg → List Leg
+  | _, [] => []
+  | k, x :: xs => if idx.contains k then remaining idx (k + 1) xs else x :: remaining idx (k + 1) xs
+
+/-- the legs at the listed positions (`none`: an index is out of range) -/
+def pick (l : List Leg) : List Nat → Option (List Leg)
+  | [] => some []
+  | i :: is =>
+    match l[i]?, pick l is with
+    | some x, some xs => some (x :: xs)
+    | _, _ => none
+
+/-- `numpy.tensordot(a, b, axes=(ia, ib))` on labels -/
+def tensordot (a b : T) (ia ib : List Nat) : Option T :=
+  if ia.length ≠ ib.length then none            -- "shape-mismatch for sum"
+  else if ¬ ia.Nodup ∨ ¬ ib.Nodup then none    -- "repeated axis in transpose"
+  else
+    match pick a.legs ia, pick b.legs ib with   -- IndexError / AxisError
+    | some la, some lb =>
+      some ⟨remaining ia 0 a.legs ++ remaining ib 0 b.legs, a.binds ++ b.binds ++ la.zip lb⟩
+    | _, _ => none
+
+/-! ### nodes -/
+
+structure Node where
+  parent : Option Nat
+  children : List Nat
+  deriving DecidableEq, Repr
+
+namespace Node
+
+def nparents (nd : Node) : Nat := if nd.parent.isSome then 1 else 0
+/-- `neighbouring_nodes()`: the parent (if any) first, then the children -/
+def nbrs (nd : Node) : List Nat := nd.parent.toList ++ nd.children
+/-- `nneighbours()` -/
+def nn (nd : Node) : Nat := nd.children.length + nd.nparents
+def isLeaf (nd : Node) : Bool := nd.children.isEmpty
+
+/-- `neighbour_index`: 0 for the parent, `children.index(id) + nparents()` for a child, else
+`NoConnectionException` -/
+def neighbourIndex (nd : Node) (n : Nat) : Option Nat :=
+  if nd.parent = some n then some 0
+  else if n ∈ nd.children then some (nd.children.idxOf n + nd.nparents)
+  else none
+
+end Node
+
+abbrev Cache := Nat → Option T      -- `partial_tree_cache.get_entry(neighbour_id, node.identifier)`
+abbrev Trafo := Nat → Nat           -- `id_trafo` (the identity when `None`)
+
+/-! ### contraction_util -/
+
+def determineIndexWithIgnoredLeg (nd : Node) (neighbourId ignoringId : Nat) : Option Nat :=
+  match nd.neighbourIndex neighbourId, nd.neighbourIndex ignoringId with
+  | some ni, some ii =>
+    if ii = ni then none                          -- assert
+    else some (if ii < ni then 1 else 0)          -- int(ignoring_index < neighbour_index)
+  | _, _ => none
+
+/-- the loop of `get_equivalent_legs` over `node1.neighbouring_nodes()` -/
+def equivLoop (n1 n2 : Node) (ignore : List Nat) (f : Trafo) : List Nat → Option (List Nat × List Nat)
+  | [] => some ([], [])
+  | n :: rest =>
+    if ignore.contains n then equivLoop n1 n2 ignore f rest
+    else
+      match n1.neighbourIndex n, n2.neighbourIndex (f n), equivLoop n1 n2 ignore f rest with
+      | some l1, some l2, some (r1, r2) => some (l1 :: r1, l2 :: r2)
+      | _, _, _ => none
+
+def getEquivalentLegs (n1 n2 : Node) (ignore : List Nat) (f : Trafo) : Option (List Nat × List Nat) :=
+  equivLoop n1 n2 ignore f n1.nbrs
+
+/-- `blockAxis` = 0: `contract_neighbour_block_to_ket`; = 1: `…_to_hamiltonian` -/
+def contractNeighbourBlock (blockAxis : Nat) (t : T) (nd : Node) (neighbourId : Nat) (cache : Cache)
+    (leg : Option Nat) : Option T :=
+  match cache neighbourId with
+  | none => none                                  -- KeyError
+  | some blk =>
+    match (match leg with | some l => some l | none => nd.neighbourIndex neighbourId) with
+    | none => none
+    | some l => tensordot t blk [l] [blockAxis]
+
+def contractNeighbourBlockIgnoreOneLeg (blockAxis : Nat) (t : T) (nd : Node) (neighbourId ignoringId : Nat)
+    (cache : Cache) : Option T :=
+  match determineIndexWithIgnoredLeg nd neighbourId ignoringId with
+  | none => none
+  | some i => contractNeighbourBlock blockAxis t nd neighbourId cache (some i)
+
+def allButOneLoop (blockAxis : Nat) (nd : Node) (next : Nat) (cache : Cache) : List Nat → T → Option T
+  | [], t => some t
+  | n :: rest, t =>
+    if n ≠ next then
+      match contractNeighbourBlockIgnoreOneLeg blockAxis t nd n next cache with
+      | none => none
+      | some t' => allButOneLoop blockAxis nd next cache rest t'
+    else allButOneLoop blockAxis nd next cache rest t
+
+def allLoop (blockAxis : Nat) (nd : Node) (cache : Cache) : List Nat → T → Option T
+  | [], t => some t
+  | n :: rest, t =>
+    match contractNeighbourBlock blockAxis t nd n cache (some 0) with
+    | none => none
+    | some t' => allLoop blockAxis nd cache rest t'
+
+def contractNeighbourBlockToKet := contractNeighbourBlock 0
+def contractNeighbourBlockToKetIgnoreOneLeg := contractNeighbourBlockIgnoreOneLeg 0
+def contractAllButOneNeighbourBlockToKet (ket : T) (nd : Node) (next : Nat) (cache : Cache) : Option T :=
+  allButOneLoop 0 nd next cache nd.nbrs ket
+def contractAllNeighbourBlocksToKet (ket : T) (nd : Node) (cache : Cache) : Option T :=
+  allLoop 0 nd cache nd.nbrs ket
+
+def contractNeighbourBlockToHamiltonian := contractNeighbourBlock 1
+def contractNeighbourBlockToHamiltonianIgnoreOneLeg := contractNeighbourBlockIgnoreOneLeg 1
+def contractAllButOneNeighbourBlockToHamiltonian (h : T) (nd : Node) (next : Nat) (cache : Cache) : Option T :=
+  allButOneLoop 1 nd next cache nd.nbrs h
+def contractAllNeighbourBlocksToHamiltonian (h : T) (nd : Node) (cache : Cache) : Option T :=
+  allLoop 1 nd cache nd.nbrs h
+
+/-! ### state_state_contraction -/
+
+def contractLeafs (n1 n2 : Node) (t1 t2 : T) : Option T :=
+  if ¬ (n1.isLeaf ∧ n2.isLeaf) then none                                        -- assert
+  else if t1.legs.length ≠ n1.nn + 1 ∨ t2.legs.length ≠ n2.nn + 1 then none     -- assert: one open leg
+  else tensordot t1 t2 [n1.nn] [n2.nn]                                          -- open_legs[0]
+
+/-- the loop of `contract_bra_to_ket_and_blocks` over `bra_node.neighbouring_nodes()` -/
+def braAllLoop (ketNode : Node) : List Nat → Option (List Nat)
+  | [] => some []
+  | n :: rest =>
+    match ketNode.neighbourIndex n, braAllLoop ketNode rest with
+    | some k, some r => some ((k + 1) :: r)
+    | _, _ => none
+
+def contractBraToKetAndBlocks (bra ketblock : T) (braNode ketNode : Node) : Option T :=
+  match braAllLoop ketNode braNode.nbrs with
+  | none => none
+  | some legsBlock => tensordot ketblock bra (legsBlock ++ [0]) (List.range (braNode.nn + 1))
+
+def braIgnoreLoop (braNode ketNode : Node) (next nextIdx : Nat) (f : Trafo) :
+    List Nat → Option (List Nat × List Nat)
+  | [] => some ([], [])
+  | n :: rest =>
+    if n ≠ next then
+      match ketNode.neighbourIndex n, braNode.neighbourIndex (f n),
+            braIgnoreLoop braNode ketNode next nextIdx f rest with
+      | some ki, some bi, some (r1, r2) =>
+        some ((ki + 1 + (if nextIdx > ki then 1 else 0)) :: r1, bi :: r2)
+      | _, _, _ => none
+    else braIgnoreLoop braNode ketNode next nextIdx f rest
+
+def contractBraToKetAndBlocksIgnoreOneLeg (bra ketblock : T) (braNode ketNode : Node) (next : Nat)
+    (f : Trafo) : Option T :=
+  match ketNode.neighbourIndex next with
+  | none => none
+  | some nextIdx =>
+    match braIgnoreLoop braNode ketNode next nextIdx f ketNode.nbrs with
+    | none => none
+    | some (legsBlock, legsBra) => tensordot ketblock bra (legsBlock ++ [1]) (legsBra ++ [braNode.nn])
+
+def contractSubtreesUsingDictionary (next : Nat) (n1 n2 : Node) (t1 t2 : T) (cache : Cache) (f : Trafo) :
+    Option T :=
+  match contractAllButOneNeighbourBlockToKet t1 n1 next cache with
+  | none => none
+  | some ketblock => contractBraToKetAndBlocksIgnoreOneLeg t2 ketblock n2 n1 next f
+
+def contractAnyNodes (next : Nat) (n1 n2 : Node) (t1 t2 : T) (cache : Cache) (f : Trafo) : Option T :=
+  if n1.isLeaf then contractLeafs n1 n2 t1 t2
+  else contractSubtreesUsingDictionary next n1 n2 t1 t2 cache f
+
+def contractNodeWithEnvironmentNodes (ketNode : Node) (ket : T) (braNode : Node) (bra : T) (cache : Cache) :
+    Option T :=
+  match contractAllNeighbourBlocksToKet ket ketNode cache with
+  | none => none
+  | some ketblock => contractBraToKetAndBlocks bra ketblock braNode ketNode
+
+/-! ### state_operator_contraction -/
+
+def nodeStatePhysLeg (nd : Node) : Nat := nd.nn
+def nodeOperatorInputLeg (nd : Node) : Nat := nd.nn + 1
+def nodeOperatorOutputLeg (nd : Node) : Nat := nd.nn
+
+/-- `contract_leaf` with the bra given explicitly (`bra_node=None` means `(state_node, state.conj())`) -/
+def opContractLeaf (stateNode : Node) (state : T) (opNode : Node) (op : T) (braNode : Node) (bra : T) :
+    Option T :=
+  match tensordot op bra [nodeOperatorOutputLeg opNode] [nodeStatePhysLeg braNode] with
+  | none => none
+  | some braHam => tensordot state braHam [nodeStatePhysLeg stateNode] [nodeOperatorInputLeg opNode - 1]
+
+def contractOperatorTensorIgnoringOneLeg (cur : T) (ketNode : Node) (op : T) (opNode : Node)
+    (ignoringId : Nat) (f : Trafo) : Option T :=
+  match getEquivalentLegs ketNode opNode [ignoringId] f with
+  | none => none
+  | some (_, opLegs) =>
+    let tensorLegs := (List.range (ketNode.nn - 1)).map (fun k => 2 * k + 2)   -- range(2, 2*nn, 2)
+    tensordot cur op (tensorLegs ++ [1]) (opLegs ++ [nodeOperatorInputLeg opNode])
+
+def contractBraTensorIgnoreOneLeg (bra : T) (braNode : Node) (ketopblock : T) (ketNode : Node)
+    (ignoringId : Nat) (f : Trafo) : Option T :=
+  let nn := ketNode.nn
+  let legsTensor := List.range' 1 (nn - 1) ++ [nn + 1]                         -- range(1, nn) + [nn+1]
+  match getEquivalentLegs ketNode braNode [ignoringId] f with
+  | none => none
+  | some (_, legsBra) => tensordot ketopblock bra legsTensor (legsBra ++ [nodeStatePhysLeg braNode])
+
+def opContractSubtreesUsingDictionary (ignoredId : Nat) (ketNode : Node) (ket : T) (opNode : Node) (op : T)
+    (cache : Cache) (braNode : Node) (bra : T) (fOp fBra : Trafo) : Option T :=
+  match contractAllButOneNeighbourBlockToKet ket ketNode ignoredId cache with
+  | none => none
+  | some t1 =>
+    match contractOperatorTensorIgnoringOneLeg t1 ketNode op opNode ignoredId fOp with
+    | none => none
+    | some t2 => contractBraTensorIgnoreOneLeg bra braNode t2 ketNode ignoredId fBra
+
+def opContractAnyNodeEnvironmentButOne (ignoredId : Nat) (ketNode : Node) (ket : T) (opNode : Node) (op : T)
+    (cache : Cache) (braNode : Node) (bra : T) (fOp fBra : Trafo) : Option T :=
+  if ketNode.isLeaf then opContractLeaf ketNode ket opNode op braNode bra
+  else opContractSubtreesUsingDictionary ignoredId ketNode ket opNode op cache braNode bra fOp fBra
+
+/-- `contract_node_with_environment`: the bra is the conjugated ket tensor on the ket's own node -/
+def opContractNodeWithEnvironment (ketNode : Node) (ket : T) (opNode : Node) (op : T) (bra : T)
+    (cache : Cache) : Option T :=
+  match contractAllNeighbourBlocksToKet ket ketNode cache with
+  | none => none
+  | some ketNeighBlock =>
+    match getEquivalentLegs ketNode opNode [] id with
+    | none => none
+    | some (stateLegs, hamLegs) =>
+      let blockLegs := (List.range ketNode.nn).map (fun k => 2 * k + 1) ++ [0]   -- range(1, 2*nn, 2) + [0]
+      match tensordot ketNeighBlock op blockLegs (hamLegs ++ [nodeOperatorInputLeg opNode]) with
+      | none => none
+      | some kethamblock =>
+        let stateLegs' := stateLegs ++ [stateLegs.length]
+        tensordot bra kethamblock stateLegs' stateLegs'
+
+/-! ### the standard tensors the theorems and the driver speak about -/
+
+def ketT (nd : Node) : T := T.fresh (nd.nbrs.map Leg.ketNb ++ [Leg.ketPhys])
+def braT (nd : Node) : T := T.fresh (nd.nbrs.map Leg.braNb ++ [Leg.braPhys])
+def opT (nd : Node) : T := T.fresh (nd.nbrs.map Leg.opNb ++ [Leg.opOut, Leg.opIn])
+
+/-- the legs of a cached block after its ket leg (axis 0): two-layer (`false`) or three-layer (`true`) -/
+def blockRest (three : Bool) (n : Nat) : List Leg :=
+  if three then [Leg.blkOp n, Leg.blkBra n] else [Leg.blkBra n]
+def block (three : Bool) (n : Nat) : T := T.fresh (Leg.blkKet n :: blockRest three n)
+
+/-- the dictionary during the contraction toward `next`: a block for every neighbour but `next` -/
+def cacheBut (three : Bool) (next : Nat) : Cache := fun n => if n = next then none else some (block three n)
+def cacheAll (three : Bool) : Cache := fun n => some (block three n)
+
 end Ptn.C04
